@@ -269,6 +269,24 @@ def long_exponent_reqs(rng, tier):
                     reqs.append("C05 u.plain_modpow %s %s %s" % (wu(b), wu(e), wu(m)))
     return reqs
 
+def cf_modinv_reqs(rng, tier):
+    """modinv on (value, modulus) pairs constructed from their Euclidean quotient sequence (genlib.cf_pair): long runs of
+    tiny quotients with huge quotients in the middle, 2 … 45 digits (a Lehmer-style extended gcd batches single-word
+    steps and falls back to a full division at a huge quotient; C05-y1 lost one sign flip exactly there), coprime and
+    with a common factor, all sign combinations for BigInt"""
+    reqs = []
+    shapes = [(20, None), (40, {7}), (80, {30}), (150, {75}), (300, {150}), (300, {3, 150, 290}), (420, {200, 201}), (600, None),
+              (700, {350}), (900, {100, 450, 800}), (1100, {20, 550}), (1100, {1080})]      # 2000 … 5000-bit moduli
+    if tier == "thorough":
+        shapes += [(200, {k}) for k in (1, 50, 100, 199)] + [(800, {400}), (1000, {10, 500, 990})]
+    for nq, huge in shapes:
+        for _ in range(2 if tier != "thorough" else 4):
+            m, a = cf_pair(rng, nq, huge)
+            for (x, y) in ((a, m), (m - a if m > a else a, m), (a + m, m)):
+                reqs.append("C05 u.modinv %s %s" % (wu(x), wu(y)))
+            reqs.append("C05 i.modinv %s %s" % (wi(rng.choice([1, -1]) * a), wi(rng.choice([1, -1]) * m)))
+    return reqs
+
 def gen(rng, tier):
     reqs = []
     thorough = tier == "thorough"
@@ -327,6 +345,7 @@ def gen(rng, tier):
     reqs += layer_reqs(rng, tier)
     reqs += nilpotent_reqs(rng, tier)
     reqs += long_exponent_reqs(rng, tier)
+    reqs += cf_modinv_reqs(rng, tier)
     # inv_mod_alt
     for b in [1, 3, 5, 7, MAX, MAX - 2, (1 << 63) + 1, (1 << 32) + 1, (1 << 32) - 1, (1 << 63) - 1, 0x5555555555555555]:
         reqs.append("C05 raw.inv_mod_alt %x" % b)
